@@ -315,7 +315,7 @@ pub fn all(prop: &str, cancelable: bool) -> Vec<Template> {
                 let mut p = B::new(2, c);
                 let r = p.root(0);
                 let a = new_adapter();
-                p.op(0, Op::ANew { a, kind: AKind::Future, span: Some(r), poll_name: None });
+                p.op(0, Op::ANew { a, kind: AKind::Future, span: Some(r), poll_name: None, owned: vec![] });
                 if pending_first {
                     p.op(1, Op::ACall { a, method: AMethod::Poll, steps: vec![Op::LAddEvent { e: new_event(), np: 0, k0: 0 }], outcome: AOutcome::Pending });
                 }
@@ -324,12 +324,22 @@ pub fn all(prop: &str, cancelable: bool) -> Vec<Template> {
                 p.done()
             }));
         }
+        v.push(tpl("in_span(root)-dropped-while-inner-owns-a-child", placed(), 30_000, move || {
+            let mut p = B::new(2, c);
+            let r = p.root(0);
+            let ch = p.child(0, r);
+            let a = new_adapter();
+            p.op(0, Op::ANew { a, kind: AKind::Future, span: Some(r), poll_name: None, owned: vec![ch] });
+            p.op(1, Op::ACall { a, method: AMethod::Poll, steps: vec![Op::LAddEvent { e: new_event(), np: 0, k0: 0 }], outcome: AOutcome::Pending });
+            p.op(1, Op::ADrop { a });
+            p.done()
+        }));
         v.push(tpl("in_span(child)-dropped-before-completion", placed(), 30_000, move || {
             let mut p = B::new(2, c);
             let r = p.root(0);
             let ch = p.child(0, r);
             let a = new_adapter();
-            p.op(0, Op::ANew { a, kind: AKind::Future, span: Some(ch), poll_name: Some(0) });
+            p.op(0, Op::ANew { a, kind: AKind::Future, span: Some(ch), poll_name: Some(0), owned: vec![] });
             let mut steps = vec![Op::LAddProps { n: 1, k0: new_keys(1) }];
             steps.extend(final_poll_steps());
             p.op(1, Op::ACall { a, method: AMethod::Poll, steps, outcome: AOutcome::Pending });
@@ -343,7 +353,7 @@ pub fn all(prop: &str, cancelable: bool) -> Vec<Template> {
             let mut p = B::new(2, c);
             let r = p.root(0);
             let a = new_adapter();
-            p.op(0, Op::ANew { a, kind: AKind::Stream, span: Some(r), poll_name: None });
+            p.op(0, Op::ANew { a, kind: AKind::Stream, span: Some(r), poll_name: None, owned: vec![] });
             p.op(1, Op::ACall { a, method: AMethod::PollNext, steps: vec![Op::LAddEvent { e: new_event(), np: 0, k0: 0 }], outcome: AOutcome::Value });
             p.op(0, Op::ACall { a, method: AMethod::PollNext, steps: final_poll_steps(), outcome: AOutcome::End });
             p.op(0, Op::ADrop { a });
@@ -353,7 +363,7 @@ pub fn all(prop: &str, cancelable: bool) -> Vec<Template> {
             let mut p = B::new(2, c);
             let r = p.root(0);
             let a = new_adapter();
-            p.op(0, Op::ANew { a, kind: AKind::Sink, span: Some(r), poll_name: None });
+            p.op(0, Op::ANew { a, kind: AKind::Sink, span: Some(r), poll_name: None, owned: vec![] });
             p.op(1, Op::ACall { a, method: AMethod::StartSend, steps: vec![Op::LAddProps { n: 1, k0: new_keys(1) }], outcome: AOutcome::Value });
             p.op(0, Op::ACall { a, method: AMethod::PollClose, steps: final_poll_steps(), outcome: AOutcome::Value });
             p.op(0, Op::ADrop { a });
